@@ -55,6 +55,13 @@ CLAIMED = {
             'staged penalty and value together. These are the code-shape conditions of "limit respected, nobody starves" for every sequence of operations.',
             'The numeric slack computation and the order in which staged variables are tried are not decided.',
             'DESIGN.md §3 C18'),
+    'C17': ('who-may-write over every unit including System.hpp; finite-state abstract exploration of all interprocedural CFG paths (co-update / must-pass-through)',
+            'Decides the invalidation discipline that lazy=fresh needs: every solver input (variable penalty/bound, constraint bound/policy/callback/limit, element weight, '
+            'enabled/disabled set membership) is written only inside the lmm classes; for every public System operation, every path (private helpers inlined, explored with a finite '
+            'abstract state instead of a sample of scenarios) that writes an input raises modified_ and reaches update_modified_cnst_set* unless the variable is disabled or has no '
+            'element on that path; solve() resets modified_ and clears the modified set only after do_solve(); visit stamps are compared with the current counter.',
+            'Does not decide that the solved values are equal; pre-solve setters (set_sharing_policy, unshare, set_concurrency_limit, Variable::initialize) are listed exceptions.',
+            'DESIGN.md §3 C17'),
 }
 
 NOT_APPLICABLE = {
